@@ -24,6 +24,7 @@ func init() {
 		Rule: "cases: rt = deal a polynomial, pick shares by a selector list (subset/permutation/multiset with nil, nil-value and out-of-range entries), " +
 			"RecoverSecret+RecoverPriPoly+RecoverCommit (each called twice on the same objects, marshalled inputs compared before/after) +Check on the picks; EVERY subset of every 1<=t<=n<=8 on both groups (exhaustive space of the flag), sampled permutations with repeated indices and n up to 64; " +
 			"primitive ops eval/shares/priadd/priequal/primul/commit/pubeval/pubadd/pubequal/check/recsecret/recpoly/reccommit on equal and different lengths, cross-group, " +
+			"Equal on pairs differing in >= 2 positions in a correlated way (permutations of one coefficient list, swapped first/last, the same XOR mask / opposite additive delta on two or on all coefficients), " +
 			"hist = a history of rt calls in ONE process (2..9 recoveries, n in 11..160, t in 2..7, index sequences in arrival order incl. pairs whose decimal digits concatenate identically, same and other group / polynomial in between), verdict after each call; " +
 			"secrets 0,1,q-1,random; non-trivial = every case except a plain in-order full-set recovery; distinct = distinct case line",
 		Gen:        gen,
@@ -1438,6 +1439,63 @@ func gen(tier string, rng *h.Rng, emit func(string)) {
 		if g.tag == "ed" && len(c) > 0 {
 			emit(fmt.Sprintf("tors %s %s %d %s %d", polyLit(g, pubc), beta, i, v, k))
 			emit(fmt.Sprintf("tors %s %s %d %s %d", polyLit(g, pubc), beta, i, modq(new(big.Int).Add(v, big.NewInt(1)), g.q), k+1))
+		}
+	}
+	// 3b. Equal on pairs that differ in >= 2 positions in a CORRELATED way (seed C09g-1: differences folded
+	// with XOR instead of OR cancel each other): permutations of one coefficient list, swapped first/last,
+	// two coefficients changed by the same XOR mask, by the same additive delta with opposite sign, all
+	// coefficients changed by one mask; PriPoly.Equal and PubPoly.Equal, both groups
+	ncorr := 40
+	if thorough {
+		ncorr = 400
+	}
+	for k := 0; k < ncorr; k++ {
+		g := gs[k%2]
+		t := 2 + rng.Intn(5)
+		c := randPoly(g, rng, t, rng.Intn(8))
+		if k%5 == 0 { // small coefficients: 5+9x vs 9+5x
+			for j := range c {
+				c[j] = big.NewInt(int64(1 + rng.Intn(12)))
+			}
+		}
+		cp := func() []*big.Int { return append([]*big.Int{}, c...) }
+		var vars [][]*big.Int
+		i, j := rng.Intn(t), rng.Intn(t)
+		for j == i {
+			j = rng.Intn(t)
+		}
+		v := cp() // two coefficients swapped
+		v[i], v[j] = v[j], v[i]
+		vars = append(vars, v)
+		v = cp() // first and last swapped
+		v[0], v[t-1] = v[t-1], v[0]
+		vars = append(vars, v)
+		v = cp() // reversed
+		for a, b := 0, t-1; a < b; a, b = a+1, b-1 {
+			v[a], v[b] = v[b], v[a]
+		}
+		vars = append(vars, v)
+		v = make([]*big.Int, t) // a random permutation
+		for a, b := range rng.Perm(t) {
+			v[a] = c[b]
+		}
+		vars = append(vars, v)
+		for _, mask := range []*big.Int{big.NewInt(1), big.NewInt(1 << 20), new(big.Int).Lsh(big.NewInt(1), uint(rng.Intn(250))), rng.Big(new(big.Int).Lsh(big.NewInt(1), 200))} {
+			v = cp() // two coefficients changed by the same XOR mask
+			v[i], v[j] = modq(new(big.Int).Xor(v[i], mask), g.q), modq(new(big.Int).Xor(v[j], mask), g.q)
+			vars = append(vars, v)
+			v = cp() // every coefficient changed by that mask
+			for a := range v {
+				v[a] = modq(new(big.Int).Xor(v[a], mask), g.q)
+			}
+			vars = append(vars, v)
+			v = cp() // +delta on one, -delta on another
+			v[i], v[j] = modq(new(big.Int).Add(v[i], mask), g.q), modq(new(big.Int).Sub(v[j], mask), g.q)
+			vars = append(vars, v)
+		}
+		for _, x := range vars {
+			emit(fmt.Sprintf("priequal %s %s", polyLit(g, c), polyLit(g, x)))
+			emit(fmt.Sprintf("pubequal %s %s", polyLit(g, c), polyLit(g, x)))
 		}
 	}
 	emit("primul g2:- g2:-")
